@@ -665,6 +665,10 @@ func (e *Exec) fireTimer() bool {
 		e.ctxFinish(best.ctx, e.ctxGlobalErr("DeadlineExceeded"), best.ctx.dlCause)
 		return true
 	}
+	if best.ch == nil { // a sleeping thread
+		best.stopped = true
+		return true
+	}
 	if len(best.ch.buf) < best.ch.cap {
 		best.ch.buf = append(best.ch.buf, TimeV{NS: best.deadline})
 	}
@@ -674,6 +678,21 @@ func (e *Exec) fireTimer() bool {
 		best.stopped = true
 	}
 	return true
+}
+
+// sleep: with other threads around the sleeper blocks until its wake-up time is the earliest pending
+// timer and nothing else can run; alone it simply moves the clock.
+func (e *Exec) sleep(d *Term) {
+	if e.Sc == nil || len(e.Sc.threads) == 1 {
+		e.advance(d)
+		return
+	}
+	if d.IsConst() && sext(d.C, 64) <= 0 {
+		return
+	}
+	t := &timerEnt{deadline: e.timeAdd(e.now().NS, d)}
+	e.timers = append(e.timers, t)
+	e.block("sleep", func() bool { return t.stopped })
 }
 
 func (e *Exec) newTimerChan(d *Term, period *Term) (*timerEnt, ChanV) {
